@@ -17,9 +17,12 @@ open PyEcc
 
 /-! ### py_ecc/utils.py -/
 
-/-- the tuple-state loop generated from `prime_field_inv` is the model's `invLoop` -/
+/-- the tuple-state loop generated from `prime_field_inv` is the model's `invLoop`.  The components of the generated loop
+    state are in the order in which the function first binds them (`lm, hm = 1, 0` / `low, high = a % n, n`); how the
+    body computes the next state (temporaries, one or several simultaneous assignments) does not matter: both sides are
+    normalised by `simp only` (which evaluates the `match` on a tuple display and the `let`s). -/
 theorem prime_field_inv_loop_fst : ∀ (f : Nat) (lm low hm high : Int),
-    (Gen.ExtraFieldsFq.Utils.prime_field_inv_loop f (lm, low, hm, high)).1 = invLoop f lm low hm high := by
+    (Gen.ExtraFieldsFq.Utils.prime_field_inv_loop f (lm, hm, low, high)).1 = invLoop f lm low hm high := by
   intro f
   induction f with
   | zero => intro lm low hm high; rfl
@@ -30,7 +33,8 @@ theorem prime_field_inv_loop_fst : ∀ (f : Nat) (lm low hm high : Int),
     · simp only [hgt, if_true]; exact ih _ _ _ _
     · simp only [hgt, if_false]
 
-/-- `prime_field_inv(a, n)` as translated from the source is the model's `primeFieldInv`, for all ints `a`, `n`. -/
+/-- `prime_field_inv(a, n)` as translated from the source is the model's `primeFieldInv`, for all ints `a`, `n`
+    (`a % n % n = a % n`: whether the source reduces the already reduced `a` a second time does not matter). -/
 theorem prime_field_inv_eq (a n : Int) :
     Gen.ExtraFieldsFq.Utils.prime_field_inv a n = primeFieldInv a n := by
   unfold Gen.ExtraFieldsFq.Utils.prime_field_inv primeFieldInv
@@ -145,9 +149,11 @@ theorem radd_fq_eq (a b : Fq p) : FQ.radd_fq p a.n b.n = ((Fq.add a b).n : Int) 
 theorem radd_int_eq (a : Fq p) (k : Int) : FQ.radd_int p a.n k = ((Fq.addInt a k).n : Int) := by
   unfold FQ.radd_int; exact add_int_eq a k
 
-/-- the `while other > 0` loop of `FQ.__pow__` is the model's `Fq.powAux` (same fuel), for a natural exponent -/
+/-- the `while other > 0` loop of `FQ.__pow__` is the model's `Fq.powAux` (same fuel), for a natural exponent.  (The
+    loop state lists the variables in the order in which the method first binds them: the parameter `other`, then
+    `o`, then `t`; the result `o` is its second component.) -/
 theorem pow_loop_fst : ∀ (f : Nat) (o t : Fq p) (e : Nat),
-    (FQ.pow_loop0 p f ((o.n : Int), (e : Int), (t.n : Int))).1 = ((Fq.powAux f o t e).n : Int) := by
+    (FQ.pow_loop0 p f ((e : Int), (o.n : Int), (t.n : Int))).2.1 = ((Fq.powAux f o t e).n : Int) := by
   intro f
   induction f with
   | zero => intro o t e; rfl
@@ -317,9 +323,11 @@ theorem radd_fq_eq (a b : Fq p) : FQ.radd_fq p a.n b.n = ((Fq.add a b).n : Int) 
 theorem radd_int_eq (a : Fq p) (k : Int) : FQ.radd_int p a.n k = ((Fq.addInt a k).n : Int) := by
   unfold FQ.radd_int; exact add_int_eq a k
 
-/-- the `while other > 0` loop of `FQ.__pow__` is the model's `Fq.powAux` (same fuel), for a natural exponent -/
+/-- the `while other > 0` loop of `FQ.__pow__` is the model's `Fq.powAux` (same fuel), for a natural exponent.  (The
+    loop state lists the variables in the order in which the method first binds them: the parameter `other`, then
+    `o`, then `t`; the result `o` is its second component.) -/
 theorem pow_loop_fst : ∀ (f : Nat) (o t : Fq p) (e : Nat),
-    (FQ.pow_loop0 p f ((o.n : Int), (e : Int), (t.n : Int))).1 = ((Fq.powAux f o t e).n : Int) := by
+    (FQ.pow_loop0 p f ((e : Int), (o.n : Int), (t.n : Int))).2.1 = ((Fq.powAux f o t e).n : Int) := by
   intro f
   induction f with
   | zero => intro o t e; rfl
